@@ -65,11 +65,11 @@ def cases(tier, seed):
              ("varint[]", "[1, -2**70]"), ("uint16", "65535"), ("float", "inf")]
     for (t1, v1), (t2, v2) in itertools.product(atoms, repeat=2):
         yield {"kind": "pair", "t": t1 + "," + t2, "records": [rs("j/pair", [[t1, "a"], [t2, "b"]], [v1, v2])]}
-    A = rs("j/a", [["string", "s"], ["varint", "n"]], ["'va'", "1"])
+    A = rs("j/a", [["string", "s"], ["varint", "n"]], ["'va'", "1"], _source="'origin-a'", _classification="'cls-a'")
     A2 = rs("j/a", [["varint", "n"], ["bytes", "b"]], ["2", "b'zz'"])
     B = rs("j/b", [["datetime", "ts"], ["string[]", "l"]], ["dt(2020,1,1,tz=UTC)", "['x']"])
     N1 = rs("j/n", [["string", "s"], ["varint", "n"], ["float", "f"], ["boolean", "b"]], ["None", "None", "None", "None"])
-    N2 = rs("j/n", [["string", "s"], ["varint", "n"], ["float", "f"], ["boolean", "b"]], ["'x'", "2**70", "0.25", "True"])
+    N2 = rs("j/n", [["string", "s"], ["varint", "n"], ["float", "f"], ["boolean", "b"]], ["'x'", "2**70", "0.25", "True"], _source="'\\udc80src'")
     N3 = rs("j/n", [["string", "s"], ["varint", "n"], ["float", "f"], ["boolean", "b"]], ["'5'", "5", "5.0", "False"])
     # a record json.dumps refuses (int beyond the int -> str digit limit): the caller skips it and carries on with that type
     JB = dict(rs("j/big", [["varint", "n"], ["string", "s"]], ["10**5000", "'refused'"]), xfail=True)
@@ -188,6 +188,41 @@ def produce(channel, records, descriptors, indent):
                 line = p.pack(r)
             out.append(line + "\n")
         return "".join(out), None
+    if channel in ("stdout-close", "stdout-with"):
+        # jsonfile://- : the documents go to standard output; ended by a bare close() or by leaving a with-block
+        import sys
+
+        from mc.rdumpshim import _Std
+
+        q = []
+        if not descriptors:
+            q.append("descriptors=false")
+        if indent is not None:
+            q.append("indent=%d" % indent)
+        old = sys.stdout
+        sys.stdout = shim = _Std()
+        try:
+            w = RecordWriter("jsonfile://-" + ("?" + "&".join(q) if q else ""))
+
+            def feed():
+                for i, r in enumerate(records):
+                    if i in XFAIL[0]:
+                        try:
+                            w.write(r)
+                        except (ValueError, TypeError, OverflowError):
+                            pass
+                    else:
+                        w.write(r)
+
+            if channel == "stdout-with":
+                with w:
+                    feed()
+            else:
+                feed()
+                w.close()
+        finally:
+            sys.stdout = old
+        return shim.getvalue().decode("utf-8", "surrogateescape"), None
     if channel == "adapter":
         path = base + ".json"
         w = JsonfileWriter(path, indent=indent, descriptors=descriptors)
@@ -254,7 +289,7 @@ def run_case(case):
     outs = []
     n = 0
     tkey = case["t"] if case["kind"] == "single" else case["kind"]
-    channels = ["packer", "adapter", "rw.json", "rw.jsonl", "uri"]  # (a .gz JSON target is a C11 matter: the text writer cannot open it)
+    channels = ["packer", "adapter", "rw.json", "rw.jsonl", "uri", "stdout-close", "stdout-with"]  # (a .gz JSON target is a C11 matter: the text writer cannot open it)
     for descriptors, indent, ch in itertools.product((True, False), (None, 0, 2), channels):
         n += 1
         cfg = "desc=%s,indent=%s" % (descriptors, indent)
@@ -335,8 +370,8 @@ def run_case(case):
                         continue
                     for r, g, d in zip(records, got, recdocs):
                         for k in (r.__slots__ if not isinstance(r, GroupedRecord) else ()):
-                            if k.startswith("_"):
-                                continue
+                            if k in ("_version", "_generated"):
+                                continue  # (a timestamp is read back as a timestamp: C13's matter; the version stamp is the reader's)
                             jv = d[k]
                             if isinstance(jv, (dict, list)):
                                 continue  # statement: same *scalar* JSON values
